@@ -191,7 +191,8 @@ def c08(tier):
     exe = vlib.build()
     rng = random.Random(vlib.SEED)
     S = scen.Script()
-    allf = [f for f, c in _fmts(exe, tier, (1,))]
+    # C08 quantifies over the sample-granular encodings (block codecs accept an RDWR open but refuse all I/O)
+    allf = [f for f, c in _fmts(exe, tier, (1,)) if scen.is_granular(f)]
     for fmt in allf:
         for ch in ((1, 2) if tier == "quick" else (1, 2, 4)):
             for pre in (0, 20):
@@ -239,8 +240,10 @@ def c09(tier):
     for mode in ("R", "W", "RW"):
         hists, gst = gen_core.gen_rw(mode, 2 if mode != "W" else 0, depth)
         gsts.append(gst)
+        if tier == "quick":      # the invalid-call clauses are format independent: every 3rd history on one format per run
+            hists = hists[vlib.SEED % 3::3]
         nh += len(hists)
-        for fmt in ([0x10002, 0x30006] if tier == "quick" else [0x10002, 0x30006, 0x20004, 0x180003]):
+        for fmt in ([0x10002] if tier == "quick" else [0x10002, 0x30006, 0x20004, 0x180003]):
             for h in hists:
                 gen_core.hist_script(S, h, fmt, 1, RATE, mode, 2 if mode != "W" else 0)
     mcs = [gen_core.mc_rw("R", 2, tag=tier[0]), gen_core.mc_rw("W", 0, tag=tier[0], maxwrites=1), gen_core.mc_rw("RW", 2, tag=tier[0], maxwrites=1)]
